@@ -102,7 +102,11 @@ void reindent_line(Chunk *pc, size_t column)
       }
       else
       {
-         pc->SetColumn(max(pc->GetColumn() + col_delta, min_col));
+         // a chunk that sits left of the chunk before it (original position
+         // kept after a removed newline) must not wrap around below zero
+         const long shifted = static_cast<long>(pc->GetColumn()) + col_delta;
+
+         pc->SetColumn((shifted > static_cast<long>(min_col)) ? static_cast<size_t>(shifted) : min_col);
 
          LOG_FMT(LINDLINED, "%s(%d): set column of ", __func__, __LINE__);
 
